@@ -571,7 +571,7 @@ func init() {
 		Rule: "crash/termination monitor in journalled worker processes: every input goes through Parse+Execute (VM hook: executed instructions <= instructions in the program, pc inside the code), Interpret, Unmarshal and one of ParseFile/InterpretFile/UnmarshalFile (a goroutine panic kills the worker; the parent finds the case in the journal and re-runs it alone). " +
 			"Inputs: fixed lists (limit scaling around operand depth 1024, 1024 locals, 16 nested blocks, paren nesting to 10^4, jump distance 65528..65542 sized exactly in code bytes; invalid and extreme literals in 8 contexts; out-of-domain operands incl. negative repeat counts and block values on every operator; every single-byte and single-token damage of 6 seed programs) " +
 			"and random ones (bytes, text soup, token sequences, generated programs with byte/token damage, hostile layout). A per-case watchdog identifies deadlocks from goroutine dumps. " +
-			"distinct = hash of input; non-trivial = the input compiled, or was rejected with a diagnostic",
+			"distinct = hash of input; non-trivial = the input compiled, or was rejected with a diagnostic Also: the operand stack filled to the limit by each kind of pushing instruction (constant, 0/1/true/false/nil shortcuts, variable read, field read, float, string) at depths 1016..1030 and after 1021..1024 variables; programs that reach the struct-binding layer of Unmarshal with an unexported tagged field in the target.",
 		Assumptions:   []string{"inputs whose legitimate result is a string beyond 2^16..2^20 bytes are skipped (property exclusion); nesting capped at 10^4"},
 		MinNontrivial: 1000,
 		Run: func(c *core.Ctx) {
